@@ -139,6 +139,45 @@ def run(E: Engine, rep: Report, tier: str) -> dict:
         a = [arg(c, i, n_) for i, n_ in ((1, "amp_on"), (2, "detuning_on"), (3, "detuning_off"))]
         ok = all(x is not None for x in a) and mentions(a[0], "amp_on") and not mentions(a[0], "detuning_on") and mentions(a[1], "detuning_on") and not mentions(a[1], "amp_on") and any(t[0] == "call" and t[1] == ("attr", ("name", "self"), "_process_eom_parameters") for t in sym.subterms(a[2]))
         rep.check(ok, "FLOW", f"Sequence.{nm}|passes-setpoint-to-scheduler", "(amp_on, detuning_on, computed detuning_off) handed to the scheduler in that order", f"{nm} hands {[sh(x, 50) for x in a]} to _Schedule.enable_eom", E.where(m_, c.node))
+    # ---- round 5 (independent audit) ----
+    # (a) enable_eom_mode's drift correction runs over the buffer that was actually scheduled: its start is read from the
+    #     buffer slot (`self._last(channel).ti`), not predicted as the duration with fall time (enable_eom rounds the
+    #     fall-time delay up to the clock period / minimum duration, so the buffer starts later)
+    een = E.method(SEQ, "enable_eom_mode")
+    pse = [l for l in S(E, een, inline=False).calls("_phase_shift") if l.fn == een.short]
+    if not pse:
+        raise AnalysisError("anchor: enable_eom_mode no longer calls _phase_shift")
+    for l in pse:
+        a0 = arg(l, 0)
+        drift_p = [t for t in sym.subterms(a0) if t[0] == "call" and t[1] == ("name", "_PhaseDriftParams")] if a0 is not None else []
+        ti_ = dict(drift_p[0][3]).get("ti") if drift_p else None
+        predicted = ti_ is not None and any(t[0] == "call" and t[1][0] == "attr" and t[1][2] == "get_duration" for t in sym.subterms(ti_))
+        from_slot = ti_ is not None and any(is_(t, "self._last(channel).ti") is not None for t in sym.subterms(ti_))
+        rep.check(from_slot and not predicted, "FLOW", "Sequence.enable_eom_mode|drift-starts-at-the-scheduled-buffer", "ti of the drift = ti of the buffer slot", f"enable_eom_mode starts the phase drift at `{sh(ti_, 80) if ti_ is not None else '?'}`, predicted before _Schedule.enable_eom() runs: enable_eom rounds the fall-time delay up to the clock period / minimum duration, the detuning_off buffer starts later, and the phase is over-corrected by detuning_off times the rounding slack", E.where(een, l.node))
+    # (b) the setpoint handed to the scheduler is a copy of the caller's values (AbstractArray does not copy an ndarray)
+    for nm in ("enable_eom_mode", "modify_eom_setpoint"):
+        m_ = E.method(SEQ, nm)
+        for c in [l for l in S(E, m_, inline=False).log if l.kind == "call" and l.target is not None and l.target[0] == "attr" and l.target[2] == "enable_eom"][-1:]:
+            for i_, n_ in ((1, "amp_on"), (2, "detuning_on")):
+                a_ = arg(c, i_, n_)
+                copied = a_ is not None and any(t[0] == "call" and t[1][0] == "attr" and t[1][2] in ("copy", "clone") for t in sym.subterms(a_)) or (a_ is not None and any(t[0] == "call" and t[1] == ("name", "float") for t in sym.subterms(a_)))
+                rep.check(copied, "FLOW", f"Sequence.{nm}|setpoint-{n_}-copied", f"{n_} is copied before it is stored as the EOM setpoint", f"{nm} stores `{sh(a_, 60) if a_ is not None else '?'}` as the EOM setpoint: AbstractArray shares memory with the caller's (0-d) array, so an in-place edit afterwards changes the amplitude / detuning of later EOM pulses while detuning_off stays the one chosen for the old values", E.where(m_, c.node))
+    # (c) `tf is None` means "still open": a closed block may end at t = 0 (enabled and immediately modified / disabled on
+    #     an empty channel), so the end of a block is never taken by truthiness (`block.tf or duration`)
+    from .common import own_nodes as _own15
+    mod_f = E.fn("pulser.sampler.samples.ChannelSamples.modulate")
+    truthy_tf = [n_ for n_ in ast.walk(mod_f.node) if isinstance(n_, ast.BoolOp) and isinstance(n_.op, ast.Or) and isinstance(n_.values[0], ast.Attribute) and n_.values[0].attr == "tf"]
+    rep.check(not truthy_tf, "GUARD", "ChannelSamples.modulate|block-end-tested-with-is-None", "`duration if block.tf is None else block.tf`", "ChannelSamples.modulate takes the end of an EOM block as `block.tf or self.duration`: a block closed at t = 0 (tf == 0 is falsy) is treated as still open and the whole channel is modulated with the EOM bandwidth", E.where(mod_f, truthy_tf[0] if truthy_tf else None))
+    # (d) the controlled beams of a RydbergEOM are distinct (a repeated beam adds the 'both off' switching combination)
+    rpi = E.fn("pulser.channels.eom.RydbergEOM.__post_init__")
+    dup = any(l.kind == "raise" and mentions(l.cond, "controlled_beams") and any(t[0] == "call" and t[1] == ("name", "set") for t in sym.subterms(l.cond)) for l in S(E, rpi, inline=False).log)
+    rep.check(dup, "GUARD", "RydbergEOM.__post_init__|controlled-beams-distinct", "len(set(controlled_beams)) != len(controlled_beams) is rejected", "RydbergEOM accepts the same beam twice in controlled_beams: (RED, RED) adds the 'both beams off' switching combination, so a detuning_off is chosen that an EOM controlling one beam cannot produce", E.where(rpi))
+    # (e) get_samples recognises the end buffer by the amplitude at the start of the slot after an EOM block: a zero-length
+    #     slot (a retarget at the very end) has no sample there
+    gs15 = E.method("pulser.sequence._schedule._ChannelSchedule", "get_samples")
+    reads = [l for l in S(E, gs15, inline=False).log if l.kind in ("test",) and l.value is not None and any(is_(t, "Q_a[Q_s.ti] == 0") is not None or is_(t, "0 == Q_a[Q_s.ti]") is not None for t in sym.subterms(l.value))]
+    ok_e = all(any(x[0] == "cmp" and x[1] in ("Lt", "Gt", "NotEq") and mentions(x, "ti") and mentions(x, "tf") for x in sym.subterms(l.value)) or any(x[0] == "cmp" and mentions(x, "ti") and mentions(x, "tf") for x in sym.conj_of(l.cond)) for l in reads)
+    rep.check(ok_e, "GUARD", "_ChannelSchedule.get_samples|end-buffer-slot-not-empty", "`s.tf > s.ti and amp[s.ti] == 0`", "get_samples reads amp[s.ti] of the slot that follows an EOM block without checking that the slot has a sample: a zero-length retarget at the very end of a Local channel has s.ti == len(amp) and sample() / draw() / the emulator raise IndexError", E.where(gs15))
     # modify_eom_setpoint corrects the phase reference by: drift at the OLD setpoint until the buffer starts, plus drift
     # at the NEW setpoint until the buffer ends (the buffer is played at the new off-detuning; counting it twice or
     # not at all leaves a residual phase)
